@@ -207,6 +207,7 @@ def evidence(R, corpus, cases, impl, model, timing):
     outcomes = collections.Counter()
     rem = collections.Counter()
     life = collections.Counter()
+    chains = collections.Counter()
     cfgc = collections.Counter()
     nontriv = set()
     requests = 0
@@ -222,6 +223,7 @@ def evidence(R, corpus, cases, impl, model, timing):
                 outcomes[a] += b
             rem.update(st.get("rem", []))
             life.update(st.get("lifetime", []))
+            chains.update(st.get("chains", []))
         if "steps" in c:
             requests += len(c["steps"])
         else:
@@ -236,7 +238,9 @@ def evidence(R, corpus, cases, impl, model, timing):
         "evaluations": len(cases), "distinct_nontrivial": len(nontriv),
         "rule": "histories of requests over simulated time (2-8 requests, 3 cache entries, time steps aimed at the end "
                 "of the TTL and at the expiry, remaining lifetimes around every boundary: absent / long expired / "
-                "inside the validity leeway / inside the cache leeway / just outside / far; cache_ttl unset / 0 / "
+                "inside the validity leeway / inside the cache leeway / just outside / far; JWKs with x5c chains of 1-3 "
+                "certificates issued on the fly, every element with its own NotAfter (CAs outliving / not outliving "
+                "the key's own certificate, around the TTL, inside the leeway, expired); cache_ttl unset / 0 / "
                 "negative / shorter / longer, with and without a rule-level override) run against the real mechanisms "
                 "created from configuration, the real endpoint client with the HTTP response cache (Cache-Control / "
                 "Expires / Date combinations, default_ttl 0 / negative / positive) and operation sequences against the "
@@ -248,6 +252,7 @@ def evidence(R, corpus, cases, impl, model, timing):
         "cases_per_family": dict(per_fam), "cases_per_mechanism": dict(per_mech), "cases_per_store": dict(per_store),
         "model_outcomes": dict(outcomes), "remaining_lifetime_classes": dict(rem),
         "http_freshness_lifetime_classes": dict(life), "configured_ttl_classes": dict(cfgc),
+        "jwk_x5c_chain_classes": dict(chains),
         "corpus_cases": len(corpus), "inconclusive_timing": sum(timing.values()),
         "inconclusive_timing_by_family": dict(timing),
         "samples": samples, "exhaustive": False,
